@@ -177,8 +177,9 @@ def run(ctx):
             if bb.q.startswith("clap_builder::error::"):
                 continue
             gi = 2 if c.callee_q.endswith("invalid_value") else 1
-            e = expr(bb, c.args[gi], 10)
-            res.check(re.search(r"possible_val|get_possible_values|good_vals", e) is not None, "R10.4", "good-vals|%s" % bb.q, c.where(),
+            es = collection_sources(bb, c.args[gi], 10)     # iterator chain, or a Vec filled by a loop
+            e = " + ".join(es)
+            res.check(all(re.search(r"possible_val|get_possible_values|good_vals", x) is not None for x in es), "R10.4", "good-vals|%s" % bb.q, c.where(),
                       "good values = %s" % e, "invalid_value suggestions not drawn from possible values: %s" % e)
 
 
